@@ -89,13 +89,14 @@ impl EliasFano {
         }
 
         let n = values.len();
-        let universe = values[n - 1] + 1; // Exclusive upper bound
+        let universe = values[n - 1].saturating_add(1); // Exclusive upper bound
 
         // Compute optimal split: lower_bits = max(0, floor(log2(u/n)))
         let lower_bits = if universe <= n as u64 {
             0
         } else {
-            (64 - (universe / n as u64).leading_zeros()) as usize
+            // Capped at 63 so that `value >> lower_bits` is always a valid shift
+            ((64 - (universe / n as u64).leading_zeros()) as usize).min(63)
         };
 
         let lower_mask = if lower_bits == 0 {
@@ -210,7 +211,8 @@ impl EliasFano {
     /// O(log n) using binary search.
     #[must_use]
     pub fn contains(&self, value: u64) -> bool {
-        if self.is_empty() || value >= self.universe {
+        // `universe` saturates at u64::MAX, so it is an exclusive bound only below that
+        if self.is_empty() || (value >= self.universe && self.universe < u64::MAX) {
             return false;
         }
 
